@@ -595,7 +595,30 @@ class CastUnmarshaller(AbstractUnmarshaller[T]):
         return self.caster(decoded)
 
 
-PathUnmarshaller = CastUnmarshaller[pathlib.Path]
+class PathUnmarshaller(CastUnmarshaller[pathlib.Path]):
+    """Unmarshaller that converts an input to a [`pathlib.PurePath`][] (or subclasses).
+
+    Note:
+        Text is only decoded, never parsed: the path `"123"` is not the number 123.
+
+    See Also:
+        - [`typelib.serdes.decode`][]
+    """
+
+    __slots__ = ()
+
+    def __call__(self, val: tp.Any) -> pathlib.Path:
+        """Unmarshal a value into the bound path type.
+
+        Args:
+            val: The input value to unmarshal.
+        """
+        decoded = serdes.decode(val)
+        if isinstance(decoded, self.t):
+            return decoded
+        return self.caster(decoded)
+
+
 MappingUnmarshaller = CastUnmarshaller[tp.Mapping]
 IterableUnmarshaller = CastUnmarshaller[tp.Iterable]
 
